@@ -230,12 +230,15 @@ static std::string run_once(const std::string& line, int timeout_ms) {
 
 int main(int argc, char** argv) {
     if (argc < 2) { fprintf(stderr, "usage: %s <casefile>\n", argv[0]); return 2; }
-    int timeout_ms = getenv("C19_TIMEOUT_MS") ? atoi(getenv("C19_TIMEOUT_MS")) : 20000;
+    int timeout_ms = getenv("C19_TIMEOUT_MS") ? atoi(getenv("C19_TIMEOUT_MS")) : 30000;
     std::ifstream in(argv[1]);
     std::string line;
     while (std::getline(in, line)) {
         if (line.empty() || line[0] == '#') continue;
         std::string a = run_once(line, timeout_ms);
+        // a loaded machine must not turn into a verdict: a case that did not finish is run again, alone, with a
+        // much longer limit; only a case that still does not finish is reported as HANG
+        if (a.compare(0, 4, "HANG") == 0) a = run_once(line, timeout_ms * 6);
         printf("%s\n", a.c_str());
         fflush(stdout);
     }
